@@ -55,10 +55,11 @@ Distribute(s) ==
       cont == HopefulS(s) \cup ElectedS(s)
       zero == [c \in CandS(s) |-> 0]
       keptS == TLCEval([j \in 1 .. Len(h.lines) |-> DistStrict(h, s.kf, h.lines[j].r, 1, h.S, zero)])
-      keptE == TLCEval([j \in 1 .. Len(h.eq) |-> DistEq(h, s.kf, cont, h.eq[j].r, 1, h.S, zero)])
+      neq == IF IsPrfM(h) THEN 0 ELSE Len(h.eq)      \* IMPL: meek-prf never reads ballots with equal rankings
+      keptE == TLCEval([j \in 1 .. neq |-> DistEq(h, s.kf, cont, h.eq[j].r, 1, h.S, zero)])
       nv == TLCEval([c \in CandS(s) |->
                IF c \in cont
-               THEN Sum([j \in 1 .. Len(h.lines) |-> keptS[j][c] * h.lines[j].m]) + Sum([j \in 1 .. Len(h.eq) |-> keptE[j][c] * h.eq[j].m])
+               THEN Sum([j \in 1 .. Len(h.lines) |-> keptS[j][c] * h.lines[j].m]) + Sum([j \in 1 .. neq |-> keptE[j][c] * h.eq[j].m])
                ELSE s.vote[c]])
   IN [s EXCEPT !.vote = nv, !.residual = h.n * h.S - Sum([c \in CandS(s) |-> IF c \in cont THEN nv[c] ELSE 0])]
 
@@ -163,7 +164,7 @@ M_FirstPrefs(s) ==
   LET h == s.h IN
   [c \in CandS(s) |->
      Sum([j \in 1 .. Len(h.lines) |-> IF h.lines[j].r[1] = c THEN h.lines[j].m * h.S ELSE 0])
-     + Sum([j \in 1 .. Len(h.eq) |-> IF c \in SeqToSet(h.eq[j].r[1]) THEN (h.S \div Len(h.eq[j].r[1])) * h.eq[j].m ELSE 0])]
+     + Sum([j \in 1 .. (IF IsPrfM(h) THEN 0 ELSE Len(h.eq)) |-> IF c \in SeqToSet(h.eq[j].r[1]) THEN (h.S \div Len(h.eq[j].r[1])) * h.eq[j].m ELSE 0])]
 
 Step_meek(s) ==
   CASE s.pc = "start" ->
